@@ -25,4 +25,6 @@ for f in $(grep -o "theories/Props/C[0-9]*\.v" _CoqProject); do
     touch "assumptions/$b.txt"
   fi
 done
+# translator tier: regenerate the generated definitions from /repo and check their equality lemmas (cached by content)
+PYTHONPATH=/verif/harness /venv/bin/python /verif/harness/genleg.py >/verif/coq/gen/last_run.txt 2>&1 || true
 echo "BUILD OK"
